@@ -850,11 +850,7 @@ def triggers(graph, fmt, base=None, bind=None, extra=None):
         # an active context switches the writer to native JSON values
         if any(x[3] == XSD + "string" or (x[3] in JSONLD_NATIVE and not _valid_canonical(x)) for x in lits):
             out.append("F15t")
-        groups = {}
-        for t in graph:
-            groups.setdefault((tuple(t[0]), t[1][1]), []).append(t[2])
-        if any(len(os_) >= 2 and any(_falsy_native(o) for o in os_) for os_ in groups.values()):
-            out.append("F15u")
+        # F15u (a falsy native value overwritten by the next object) was repaired by 532bfe56: no trigger
     if fmt == "json-ld":
         if unreachable_bnode(graph):
             out.append("F15i")
@@ -1440,7 +1436,7 @@ class TtlString(Suite):
 # ---------------------------------------------------------------- graph level: conformance only
 TRIGGER_NUM = {"F15": 1, "F15b": 2, "F15c": 3, "F15d": 4, "F15e": 5, "F15f": 6, "F15g": 7, "F15h": 8,
                "F15i": 9, "F15j": 10, "F15k": 11, "F15l": 12, "F15m": 13, "F15n": 14, "F15o": 15, "F15p": 16, "F15r": 17, "F15s": 18, "F15t": 19, "F15u": 20}
-FIXED_FINDINGS = {"F15b", "F15e", "F15f", "F15h", "F15m", "F15o", "F15r"}   # repaired in /repo
+FIXED_FINDINGS = {"F15b", "F15e", "F15f", "F15h", "F15m", "F15o", "F15r", "F15u"}   # repaired in /repo
 BINDS = [None, None, [["ex", "http://e/"], ["ns", "http://e/ns#"]], [["", "http://e/"]], [["ex", "http://e/ns#"]]]
 BASES = [None, None, None, "http://e/", "http://e/", "http://other.org/"]
 
